@@ -1,6 +1,964 @@
-//! C20 — not built yet.
-use crate::rt::*;
+//! C20 — homomorphic matrix products and convolutions equal the plaintext ones, for every shape
+//! the helpers accept; output re-encoding is the inverse of output decoding; the RNS-plaintext
+//! wrapper computes modulo the product of its plain moduli.
+//!
+//! Oracles (independent of the library): u128 matrix product / valid cross-correlation mod t,
+//! f64 references for CKKS with a derived worst-case tolerance, `BigU` arithmetic mod prod t_i
+//! (slot-wise and negacyclic-polynomial) for rns_plain.
+//!
+//! "accepted" = the helper constructor returned. After that every panic and every mismatch is a
+//! violation (all operand values are inside the noise precondition stated in `PropMeta`).
 
-pub fn run(_cfg: &Cfg, _rep: &mut Report) -> PropMeta {
-    PropMeta { id: "C20", level: "exploration", rule: "not built", assumptions: vec![], exhaustive: false, floor: 1 }
+use crate::big::BigU;
+use crate::he::*;
+use crate::rt::*;
+use heathcliff::app::conv2d::Conv2dHelper;
+use heathcliff::app::matmul::bolt_cc_cr::MatmulBoltCcCr;
+use heathcliff::app::matmul::bolt_cc_dc::MatmulBoltCcDc;
+use heathcliff::app::matmul::bolt_cp::MatmulBoltCp;
+use heathcliff::app::matmul::cheetah::MatmulHelper;
+use heathcliff::app::matmul::{Cipher2d, MatmulHelperObjective, Plain2d};
+use heathcliff::app::rns_plain::{
+    RnspBatchEncoder, RnspCiphertext, RnspDecryptor, RnspEncryptionParameters, RnspEncryptor, RnspEvaluator,
+    RnspExpandSeed, RnspHeContext, RnspKeyGenerator, RnspPlaintext,
+};
+use heathcliff::*;
+use serde_json::{json, Value};
+
+const P: &str = "C20";
+/// CKKS encoding scale (inputs and weights); products carry DELTA^2 and are rescaled once.
+const DELTA_LOG: i32 = 45;
+/// bound on |x|, |w|, |bias| for CKKS operands
+const CK_B: f64 = 4.0;
+
+// ------------------------------------------------------------------ reporting context
+struct Cx<'a> {
+    cfg: &'a Cfg,
+    rep: &'a mut Report,
+    grp: &'static str,
+    case: u64,
+    /// structural class used in signatures
+    class: String,
+    info: Value,
+    failed: bool,
+}
+impl<'a> Cx<'a> {
+    fn viol(&mut self, op: &str, kind: &str, detail: String) {
+        self.failed = true;
+        let sig = format!("{}|{}|{}|{}", P, op, self.class, kind);
+        let info = self.info.clone();
+        self.rep.violation(&sig, format!("{}: {} ; case {}", op, detail, info), replay_json(self.cfg, self.grp, self.case, info.clone()));
+    }
+}
+
+/// run a library step; a panic is a violation of the current config and ends it
+macro_rules! step {
+    ($cx:expr, $op:expr, $body:expr) => {
+        match lib(|| $body) {
+            Ok(v) => v,
+            Err(p) => { let op: String = $op.to_string(); $cx.viol(&op, "panic", format!("panicked: {}", p.0)); return; }
+        }
+    };
+}
+
+fn ceil_div(a: usize, b: usize) -> usize { (a + b - 1) / b }
+fn pow2f(e: i32) -> f64 { 2f64.powi(e) }
+
+// ------------------------------------------------------------------ references
+fn matmul_mod(x: &[u64], w: &[u64], m: usize, r: usize, n: usize, t: u64) -> Vec<u64> {
+    let mut y = vec![0u64; m * n];
+    for i in 0..m { for j in 0..n {
+        let mut acc: u128 = 0;
+        for k in 0..r { acc = (acc + (x[i * r + k] as u128 * w[k * n + j] as u128) % t as u128) % t as u128; }
+        y[i * n + j] = acc as u64;
+    } }
+    y
+}
+fn matmul_f64(x: &[f64], w: &[f64], m: usize, r: usize, n: usize) -> Vec<f64> {
+    let mut y = vec![0f64; m * n];
+    for i in 0..m { for j in 0..n { let mut acc = 0.0; for k in 0..r { acc += x[i * r + k] * w[k * n + j]; } y[i * n + j] = acc; } }
+    y
+}
+#[derive(Clone, Copy, Debug)]
+struct ConvShape { b: usize, ci: usize, co: usize, h: usize, w: usize, kh: usize, kw: usize }
+impl ConvShape {
+    fn oh(&self) -> usize { self.h - self.kh + 1 }
+    fn ow(&self) -> usize { self.w - self.kw + 1 }
+    fn lx(&self) -> usize { self.b * self.ci * self.h * self.w }
+    fn lw(&self) -> usize { self.co * self.ci * self.kh * self.kw }
+    fn ly(&self) -> usize { self.b * self.co * self.oh() * self.ow() }
+}
+/// valid cross-correlation y[b,oc,i,j] = sum_{ic,a,c} x[b,ic,i+a,j+c] * w[oc,ic,a,c]
+fn conv_mod(x: &[u64], w: &[u64], s: &ConvShape, t: u64) -> Vec<u64> {
+    let (oh, ow) = (s.oh(), s.ow());
+    let mut y = vec![0u64; s.ly()];
+    for b in 0..s.b { for oc in 0..s.co { for i in 0..oh { for j in 0..ow {
+        let mut acc: u128 = 0;
+        for ic in 0..s.ci { for a in 0..s.kh { for c in 0..s.kw {
+            let xi = ((b * s.ci + ic) * s.h + i + a) * s.w + j + c;
+            let wi = ((oc * s.ci + ic) * s.kh + a) * s.kw + c;
+            acc = (acc + (x[xi] as u128 * w[wi] as u128) % t as u128) % t as u128;
+        } } }
+        y[((b * s.co + oc) * oh + i) * ow + j] = acc as u64;
+    } } } }
+    y
+}
+fn conv_f64(x: &[f64], w: &[f64], s: &ConvShape) -> Vec<f64> {
+    let (oh, ow) = (s.oh(), s.ow());
+    let mut y = vec![0f64; s.ly()];
+    for b in 0..s.b { for oc in 0..s.co { for i in 0..oh { for j in 0..ow {
+        let mut acc = 0.0;
+        for ic in 0..s.ci { for a in 0..s.kh { for c in 0..s.kw {
+            acc += x[((b * s.ci + ic) * s.h + i + a) * s.w + j + c] * w[((oc * s.ci + ic) * s.kh + a) * s.kw + c];
+        } } }
+        y[((b * s.co + oc) * oh + i) * ow + j] = acc;
+    } } } }
+    y
+}
+fn addv_mod(a: &[u64], b: &[u64], t: u64) -> Vec<u64> { a.iter().zip(b).map(|(&x, &y)| ((x as u128 + y as u128) % t as u128) as u64).collect() }
+fn addv_f64(a: &[f64], b: &[f64]) -> Vec<f64> { a.iter().zip(b).map(|(x, y)| x + y).collect() }
+
+// ------------------------------------------------------------------ parameter sets
+/// two 60-bit data primes + one 60-bit special prime (key level)
+fn make_spec(rng: &mut Rng, scheme: SchemeType, n: usize, t: u64, family: &str, data_primes: usize) -> Option<Spec> {
+    let qs = coeff_primes(n, &vec![60u32; data_primes + 1], rng)?;
+    if qs.contains(&t) { return None; }
+    Some(Spec { scheme, n, qs, t, special_flag: false, expand: true, family: family.to_string() })
+}
+/// batching prime t = 1 mod 2n with `bits` bits (scanning downward, skipping `skip`)
+fn batching_prime(n: usize, bits: u32, skip: usize) -> Option<u64> { ntt_primes(n, bits.max((2 * n).trailing_zeros() + 2), 1, skip).into_iter().next() }
+
+/// Worst-case BFV phase error after `adds` accumulated plaintext products (plus an optional packing),
+/// against the decryption bound q/(2t), with a factor-8 margin. q >= 2^118 (two 60-bit primes).
+/// per product: |e*p| <= N*(t/2)*(B_fresh+1) and the Delta*m*p wrap term <= N*t^2/2.
+fn bfv_plainmul_in_budget(n: usize, t: u64, adds: usize, bf: f64) -> bool {
+    let nf = n as f64; let tf = t as f64;
+    let per = nf * (tf / 2.0) * (bf + 1.0) + nf * tf * tf / 2.0;
+    let total = adds as f64 * per * 2.0 + pow2f(16) * nf * nf;
+    total.log2() + 3.0 < 118.0 - (tf.log2() + 1.0)
+}
+
+// ------------------------------------------------------------------ operand generators
+/// value classes for exact schemes; returns (name, nontrivial)
+const U_CLASSES: [&str; 8] = ["random", "random", "random", "all_max", "sparse_small", "zero_w", "w_last_out_zero", "x_last_zero"];
+fn gen_u(rng: &mut Rng, len: usize, t: u64, class: &str) -> Vec<u64> {
+    match class {
+        "all_max" => vec![t - 1; len],
+        "sparse_small" => (0..len).map(|_| if rng.chance(3, 4) { 0 } else { 1 + rng.below((t - 1).min(3)) }).collect(),
+        _ => (0..len).map(|_| rng.below(t)).collect(),
+    }
+}
+fn gen_f(rng: &mut Rng, len: usize, class: &str) -> Vec<f64> {
+    match class {
+        "all_max" => vec![-CK_B; len],
+        "sparse_small" => (0..len).map(|_| if rng.chance(3, 4) { 0.0 } else { 1.0 + rng.below(3) as f64 }).collect(),
+        _ => (0..len).map(|_| (rng.f64() * 2.0 - 1.0) * CK_B).collect(),
+    }
+}
+
+// ------------------------------------------------------------------ coefficient-packing helpers (Cheetah matmul, conv2d)
+trait CoeffHelper {
+    fn name(&self) -> &'static str;
+    fn fwd_name(&self) -> &'static str;
+    fn rev_name(&self) -> &'static str;
+    fn enc_in_u(&self, e: &BatchEncoder, v: &[u64]) -> Plain2d;
+    fn enc_w_u(&self, e: &BatchEncoder, v: &[u64]) -> Plain2d;
+    fn enc_out_u(&self, e: &BatchEncoder, v: &[u64]) -> Plain2d;
+    fn dec_out_u(&self, e: &BatchEncoder, d: &Decryptor, c: &Cipher2d) -> Vec<u64>;
+    fn enc_in_f(&self, e: &CKKSEncoder, v: &[f64], p: Option<ParmsID>, s: f64) -> Plain2d;
+    fn enc_w_f(&self, e: &CKKSEncoder, v: &[f64], p: Option<ParmsID>, s: f64) -> Plain2d;
+    fn enc_out_f(&self, e: &CKKSEncoder, v: &[f64], p: Option<ParmsID>, s: f64) -> Plain2d;
+    fn dec_out_f(&self, e: &CKKSEncoder, d: &Decryptor, c: &Cipher2d) -> Vec<f64>;
+    fn fwd(&self, ev: &Evaluator, x: &Cipher2d, w: &Plain2d) -> Cipher2d;
+    fn rev(&self, ev: &Evaluator, x: &Plain2d, w: &Cipher2d) -> Cipher2d;
+    fn terms(&self) -> Vec<usize>;
+    /// number of plaintext products accumulated into one output ciphertext, as seen in the encoded operands
+    fn accumulations(&self, px: &Plain2d, pw: &Plain2d) -> usize;
+    fn pack(&self, _ev: &Evaluator, _gk: &GaloisKeys, _c: &Cipher2d) -> Cipher2d { unreachable!() }
+}
+impl CoeffHelper for MatmulHelper {
+    fn name(&self) -> &'static str { "MatmulHelper" }
+    fn fwd_name(&self) -> &'static str { "matmul" }
+    fn rev_name(&self) -> &'static str { "matmul_reverse" }
+    fn enc_in_u(&self, e: &BatchEncoder, v: &[u64]) -> Plain2d { self.encode_inputs_bfv(e, v) }
+    fn enc_w_u(&self, e: &BatchEncoder, v: &[u64]) -> Plain2d { self.encode_weights_bfv(e, v) }
+    fn enc_out_u(&self, e: &BatchEncoder, v: &[u64]) -> Plain2d { self.encode_outputs_bfv(e, v) }
+    fn dec_out_u(&self, e: &BatchEncoder, d: &Decryptor, c: &Cipher2d) -> Vec<u64> { self.decrypt_outputs_bfv(e, d, c) }
+    fn enc_in_f(&self, e: &CKKSEncoder, v: &[f64], p: Option<ParmsID>, s: f64) -> Plain2d { self.encode_inputs_ckks(e, v, p, s) }
+    fn enc_w_f(&self, e: &CKKSEncoder, v: &[f64], p: Option<ParmsID>, s: f64) -> Plain2d { self.encode_weights_ckks(e, v, p, s) }
+    fn enc_out_f(&self, e: &CKKSEncoder, v: &[f64], p: Option<ParmsID>, s: f64) -> Plain2d { self.encode_outputs_ckks(e, v, p, s) }
+    fn dec_out_f(&self, e: &CKKSEncoder, d: &Decryptor, c: &Cipher2d) -> Vec<f64> { self.decrypt_outputs_ckks(e, d, c) }
+    fn fwd(&self, ev: &Evaluator, x: &Cipher2d, w: &Plain2d) -> Cipher2d { self.matmul(ev, x, w) }
+    fn rev(&self, ev: &Evaluator, x: &Plain2d, w: &Cipher2d) -> Cipher2d { self.matmul_reverse(ev, x, w) }
+    fn terms(&self) -> Vec<usize> { self.output_terms() }
+    fn accumulations(&self, _px: &Plain2d, pw: &Plain2d) -> usize { pw.data.len() }
+    fn pack(&self, ev: &Evaluator, gk: &GaloisKeys, c: &Cipher2d) -> Cipher2d { self.pack_outputs(ev, gk, c) }
+}
+impl CoeffHelper for Conv2dHelper {
+    fn name(&self) -> &'static str { "Conv2dHelper" }
+    fn fwd_name(&self) -> &'static str { "conv2d" }
+    fn rev_name(&self) -> &'static str { "conv2d_reverse" }
+    fn enc_in_u(&self, e: &BatchEncoder, v: &[u64]) -> Plain2d { self.encode_inputs_bfv(e, v) }
+    fn enc_w_u(&self, e: &BatchEncoder, v: &[u64]) -> Plain2d { self.encode_weights_bfv(e, v) }
+    fn enc_out_u(&self, e: &BatchEncoder, v: &[u64]) -> Plain2d { self.encode_outputs_bfv(e, v) }
+    fn dec_out_u(&self, e: &BatchEncoder, d: &Decryptor, c: &Cipher2d) -> Vec<u64> { self.decrypt_outputs_bfv(e, d, c) }
+    fn enc_in_f(&self, e: &CKKSEncoder, v: &[f64], p: Option<ParmsID>, s: f64) -> Plain2d { self.encode_inputs_ckks(e, v, p, s) }
+    fn enc_w_f(&self, e: &CKKSEncoder, v: &[f64], p: Option<ParmsID>, s: f64) -> Plain2d { self.encode_weights_ckks(e, v, p, s) }
+    fn enc_out_f(&self, e: &CKKSEncoder, v: &[f64], p: Option<ParmsID>, s: f64) -> Plain2d { self.encode_outputs_ckks(e, v, p, s) }
+    fn dec_out_f(&self, e: &CKKSEncoder, d: &Decryptor, c: &Cipher2d) -> Vec<f64> { self.decrypt_outputs_ckks(e, d, c) }
+    fn fwd(&self, ev: &Evaluator, x: &Cipher2d, w: &Plain2d) -> Cipher2d { self.conv2d(ev, x, w) }
+    fn rev(&self, ev: &Evaluator, x: &Plain2d, w: &Cipher2d) -> Cipher2d { self.conv2d_reverse(ev, x, w) }
+    fn terms(&self) -> Vec<usize> { self.output_terms() }
+    fn accumulations(&self, px: &Plain2d, _pw: &Plain2d) -> usize { px.data.get(0).map(|r| r.data.len()).unwrap_or(1) }
+}
+
+#[derive(Clone, Copy, PartialEq, Debug)]
+enum Dir { Fwd, Rev, Sum }
+#[derive(Clone, Copy, PartialEq, Debug)]
+enum Transport { Terms, Full, Direct }
+impl Transport { fn name(&self) -> &'static str { match self { Transport::Terms => "serialize_terms", Transport::Full => "serialize", Transport::Direct => "none" } } }
+
+enum Ops {
+    U { t: u64, x: Vec<u64>, w: Vec<u64>, x2: Vec<u64>, w2: Vec<u64>, bias: Vec<u64>, expect: Vec<u64> },
+    F { x: Vec<f64>, w: Vec<f64>, x2: Vec<f64>, w2: Vec<f64>, bias: Vec<f64>, expect: Vec<f64> },
+}
+
+fn roundtrip_full(ctx: &HeContext, c: &Cipher2d) -> Cipher2d {
+    let mut buf = vec![];
+    c.serialize(ctx, &mut buf).expect("serialize to Vec");
+    Cipher2d::deserialize(ctx, &mut buf.as_slice()).expect("deserialize what was just serialized")
+}
+fn roundtrip_terms(ctx: &HeContext, c: &Cipher2d, terms: &[usize]) -> Cipher2d {
+    let mut buf = vec![];
+    c.serialize_terms(ctx, terms, &mut buf).expect("serialize_terms to Vec");
+    Cipher2d::deserialize_terms(ctx, terms, &mut buf.as_slice()).expect("deserialize_terms of what was just serialized")
+}
+fn do_transport(ctx: &HeContext, c: &Cipher2d, tr: Transport, terms: &[usize]) -> Cipher2d {
+    match tr { Transport::Terms => roundtrip_terms(ctx, c, terms), Transport::Full => roundtrip_full(ctx, c), Transport::Direct => c.clone() }
+}
+fn encrypt2d(kit: &Kit, p: &Plain2d, sym: bool, wire: bool) -> Cipher2d {
+    let c = if sym { p.encrypt_symmetric(&kit.enc).expand_seed(&kit.ctx) } else { p.encrypt(&kit.enc) };
+    if wire { roundtrip_full(&kit.ctx, &c) } else { c }
+}
+fn first_mismatch_u(got: &[u64], want: &[u64]) -> Option<String> {
+    if got.len() != want.len() { return Some(format!("length {} expected {}", got.len(), want.len())); }
+    let bad: Vec<usize> = (0..got.len()).filter(|&i| got[i] != want[i]).collect();
+    if bad.is_empty() { None } else { let i = bad[0]; Some(format!("{} of {} outputs differ; first at index {}: got {} expected {}", bad.len(), got.len(), i, got[i], want[i])) }
+}
+fn first_mismatch_f(got: &[f64], want: &[f64], tol: f64) -> (f64, Option<String>) {
+    if got.len() != want.len() { return (f64::INFINITY, Some(format!("length {} expected {}", got.len(), want.len()))); }
+    let mut worst = 0f64; let mut first = None; let mut bad = 0;
+    for i in 0..got.len() {
+        let e = (got[i] - want[i]).abs();
+        if !(e <= tol) { bad += 1; if first.is_none() { first = Some(i); } }
+        if e > worst || e.is_nan() { worst = if e.is_nan() { f64::INFINITY } else { e }; }
+    }
+    (worst, first.map(|i| format!("{} of {} outputs outside tolerance {:e}; first at index {}: got {} expected {} (max error {:e})", bad, got.len(), tol, i, got[i], want[i], worst)))
+}
+
+/// derived worst-case error of a decoded CKKS output (value units), see PropMeta.assumptions
+fn ckks_tol(n: usize, bf: f64, adds: usize, dirs: f64, scale_out: f64, vmax_out: f64) -> f64 {
+    let delta = pow2f(DELTA_LOG);
+    let t_prod = dirs * adds as f64 * n as f64 * (CK_B + 1.0) * (bf + 2.0) / delta; // encoding rounding + fresh noise through the plaintext products
+    let t_pack = pow2f(16) * (n * n) as f64 / (delta * delta);                                     // key-switching noise of the field trace, at scale DELTA^2
+    let t_rescale = (n as f64 + 2.0) / 2.0 / scale_out;                             // rounding of c0 + c1 s
+    let t_bias = 1.0 / scale_out;                                                   // bias encoding rounding
+    let t_fp = pow2f(13) / scale_out;                                               // decode: u64 -> f64 conversions of word differences
+    let t_ref = (vmax_out + 1.0) * pow2f(-45);                                      // the f64 reference itself
+    2.0 * (t_prod + t_pack + t_rescale + t_bias + t_fp + t_ref)
+}
+
+/// decrypt_outputs_bfv with a narrow class when BFV decryption returned a plaintext shorter than N
+/// (the decryptor trims trailing zero coefficients)
+fn dec_u<H: CoeffHelper>(cx: &mut Cx, kit: &Kit, be: &BatchEncoder, h: &H, c: &Cipher2d) -> Option<Vec<u64>> {
+    let n = kit.n();
+    let short = lib(|| c.data.iter().any(|row| row.data.iter().any(|ct| kit.dec.decrypt_new(ct).data().len() < n))).unwrap_or(false);
+    if short { cx.rep.count("bfv_outputs_with_trimmed_plaintext", h.name()); }
+    match lib(|| h.dec_out_u(be, &kit.dec, c)) {
+        Ok(v) => Some(v),
+        Err(p) => {
+            let saved = cx.class.clone();
+            if short { cx.class = "decrypted_plaintext_shorter_than_N".into(); }
+            cx.viol(&format!("{}::decrypt_outputs", h.name()), "panic", format!("panicked: {}", p.0));
+            cx.class = saved;
+            None
+        }
+    }
+}
+
+/// One configuration of a coefficient-packing helper: product (either/both operands encrypted),
+/// optional packing, transport, decryption, bias, re-encoding.
+fn coeff_flow<H: CoeffHelper>(cx: &mut Cx, rng: &mut Rng, kit: &Kit, benc: Option<&BatchEncoder>, h: &H, ops: &Ops, adds: usize, dir: Dir, pack: Option<&GaloisKeys>, force_sym: bool, force_tr: Option<Transport>) {
+    let hn = h.name();
+    let n = kit.n();
+    let sym = rng.bool() || force_sym;
+    // worst-case fresh noise of the encrypted operand(s): secret-key encryption 21, public-key 21(2N+1)
+    let all_sym = sym && (dir != Dir::Sum || force_sym);
+    let bf = fresh_noise_bound(n, !all_sym);
+    let wire = rng.bool();
+    let tr = if pack.is_some() { if rng.chance(4, 5) { Transport::Full } else { Transport::Direct } }
+        else { match rng.below(10) { 0..=5 => Transport::Terms, 6..=7 => Transport::Full, _ => Transport::Direct } };
+    let tr = force_tr.unwrap_or(tr);
+    cx.info["transport"] = json!(tr.name()); cx.info["symmetric_inputs"] = json!(sym); cx.info["inputs_through_serialization"] = json!(wire);
+    cx.rep.count("transport", &format!("{}|{}", hn, tr.name()));
+    let op_mul = match dir { Dir::Fwd => format!("{}::{}", hn, h.fwd_name()), Dir::Rev => format!("{}::{}", hn, h.rev_name()), Dir::Sum => format!("{}::{}+{}", hn, h.fwd_name(), h.rev_name()) };
+    let op_mul = if pack.is_some() { format!("{}+pack_outputs", op_mul) } else { op_mul };
+    let terms = step!(cx, format!("{}::output_terms", hn), h.terms());
+    if terms.iter().any(|&i| i >= n) { cx.viol(&format!("{}::output_terms", hn), "value", format!("term index out of range: {:?}", terms.iter().max())); return; }
+    match ops {
+        Ops::U { t, x, w, x2, w2, bias, expect } => {
+            let t = *t; let be = benc.expect("batch encoder");
+            let px = step!(cx, format!("{}::encode_inputs", hn), h.enc_in_u(be, x));
+            let pw = step!(cx, format!("{}::encode_weights", hn), h.enc_w_u(be, w));
+            let adds = adds.min(h.accumulations(&px, &pw).max(1));
+            if !bfv_plainmul_in_budget(n, t, adds * if dir == Dir::Sum { 2 } else { 1 }, bf) { cx.rep.out_of_precondition += 1; return; }
+            let mut y = match dir {
+                Dir::Fwd => { let xc = step!(cx, "Plain2d::encrypt", encrypt2d(kit, &px, sym, wire)); step!(cx, op_mul, h.fwd(&kit.eval, &xc, &pw)) }
+                Dir::Rev => { let wc = step!(cx, "Plain2d::encrypt", encrypt2d(kit, &pw, sym, wire)); step!(cx, op_mul, h.rev(&kit.eval, &px, &wc)) }
+                Dir::Sum => {
+                    let xc = step!(cx, "Plain2d::encrypt", encrypt2d(kit, &px, sym, wire));
+                    let mut a = step!(cx, op_mul, h.fwd(&kit.eval, &xc, &pw));
+                    let px2 = step!(cx, format!("{}::encode_inputs", hn), h.enc_in_u(be, x2));
+                    let pw2 = step!(cx, format!("{}::encode_weights", hn), h.enc_w_u(be, w2));
+                    let wc2 = step!(cx, "Plain2d::encrypt", encrypt2d(kit, &pw2, !sym || force_sym, wire));
+                    let b = step!(cx, op_mul, h.rev(&kit.eval, &px2, &wc2));
+                    step!(cx, "Cipher2d::add_inplace", a.add_inplace(&kit.eval, &b));
+                    a
+                }
+            };
+            if let Some(gk) = pack { y = step!(cx, op_mul, h.pack(&kit.eval, gk, &y)); }
+            if let Ok(b) = lib(|| kit.dec.invariant_noise_budget(&y.data[0].data[0])) { cx.rep.min(&format!("noise_budget_bits_after_product.{}", hn), b as f64); }
+            let mut yt = step!(cx, format!("Cipher2d::{}", tr.name()), do_transport(&kit.ctx, &y, tr, &terms));
+            let Some(got) = dec_u(cx, kit, be, h, &yt) else { return; };
+            if let Some(d) = first_mismatch_u(&got, expect) { cx.viol(&op_mul, "value", d); return; }
+            cx.info["observed_outputs_head"] = json!(got.iter().take(6).collect::<Vec<_>>());
+            // bias: adding the encoded bias adds exactly the bias
+            let pb = step!(cx, format!("{}::encode_outputs", hn), h.enc_out_u(be, bias));
+            step!(cx, "Cipher2d::add_plain_inplace", yt.add_plain_inplace(&kit.eval, &pb));
+            let Some(got_b) = dec_u(cx, kit, be, h, &yt) else { return; };
+            if let Some(d) = first_mismatch_u(&got_b, &addv_mod(expect, bias, t)) { cx.viol(&format!("{}::encode_outputs+add_plain", hn), "value", d); return; }
+            // re-encoding is the inverse of decoding
+            let pe = step!(cx, format!("{}::encode_outputs", hn), h.enc_out_u(be, expect));
+            let ce = step!(cx, "Plain2d::encrypt", encrypt2d(kit, &pe, sym, false));
+            let ce = step!(cx, format!("Cipher2d::{}", tr.name()), do_transport(&kit.ctx, &ce, tr, &terms));
+            let Some(back) = dec_u(cx, kit, be, h, &ce) else { return; };
+            if let Some(d) = first_mismatch_u(&back, expect) { cx.viol(&format!("{}::encode_outputs->decrypt_outputs", hn), "value", d); return; }
+        }
+        Ops::F { x, w, x2, w2, bias, expect } => {
+            let ce = kit.ckks.as_ref().expect("ckks encoder");
+            let delta = pow2f(DELTA_LOG);
+            let px = step!(cx, format!("{}::encode_inputs", hn), h.enc_in_f(ce, x, None, delta));
+            let pw = step!(cx, format!("{}::encode_weights", hn), h.enc_w_f(ce, w, None, delta));
+            let adds = adds.min(h.accumulations(&px, &pw).max(1));
+            let mut y = match dir {
+                Dir::Fwd => { let xc = step!(cx, "Plain2d::encrypt", encrypt2d(kit, &px, sym, wire)); step!(cx, op_mul, h.fwd(&kit.eval, &xc, &pw)) }
+                Dir::Rev => { let wc = step!(cx, "Plain2d::encrypt", encrypt2d(kit, &pw, sym, wire)); step!(cx, op_mul, h.rev(&kit.eval, &px, &wc)) }
+                Dir::Sum => {
+                    let xc = step!(cx, "Plain2d::encrypt", encrypt2d(kit, &px, sym, wire));
+                    let mut a = step!(cx, op_mul, h.fwd(&kit.eval, &xc, &pw));
+                    let px2 = step!(cx, format!("{}::encode_inputs", hn), h.enc_in_f(ce, x2, None, delta));
+                    let pw2 = step!(cx, format!("{}::encode_weights", hn), h.enc_w_f(ce, w2, None, delta));
+                    let wc2 = step!(cx, "Plain2d::encrypt", encrypt2d(kit, &pw2, !sym || force_sym, wire));
+                    let b = step!(cx, op_mul, h.rev(&kit.eval, &px2, &wc2));
+                    step!(cx, "Cipher2d::add_inplace", a.add_inplace(&kit.eval, &b));
+                    a
+                }
+            };
+            if let Some(gk) = pack { y = step!(cx, op_mul, h.pack(&kit.eval, gk, &y)); }
+            step!(cx, "Cipher2d::rescale_to_next_inplace", y.rescale_to_next_inplace(&kit.eval));
+            let scale_out = y.data[0].data[0].scale();
+            let pid = *y.data[0].data[0].parms_id();
+            let q_last = kit.level_qs(0)[1] as f64;
+            if !((scale_out * q_last / (delta * delta) - 1.0).abs() < 1e-9) { cx.viol(&op_mul, "scale", format!("scale after rescale {:e}, expected DELTA^2/q1 = {:e}", scale_out, delta * delta / q_last)); return; }
+            let vmax = expect.iter().fold(0f64, |a, v| a.max(v.abs())) + CK_B;
+            let tol = ckks_tol(n, bf, adds, if dir == Dir::Sum { 2.0 } else { 1.0 }, scale_out, vmax);
+            if !(tol <= pow2f(-10)) { cx.rep.out_of_precondition += 1; return; }
+            cx.rep.max("ckks_tolerance_used", tol);
+            let mut yt = step!(cx, format!("Cipher2d::{}", tr.name()), do_transport(&kit.ctx, &y, tr, &terms));
+            let got = step!(cx, format!("{}::decrypt_outputs", hn), h.dec_out_f(ce, &kit.dec, &yt));
+            let (worst, bad) = first_mismatch_f(&got, expect, tol);
+            if let Some(d) = bad { cx.viol(&op_mul, "value", d); return; }
+            cx.rep.max(&format!("ckks_abs_error_observed.{}", hn), worst);
+            cx.info["observed_outputs_head"] = json!(got.iter().take(4).collect::<Vec<_>>());
+            let pb = step!(cx, format!("{}::encode_outputs", hn), h.enc_out_f(ce, bias, Some(pid), scale_out));
+            step!(cx, "Cipher2d::add_plain_inplace", yt.add_plain_inplace(&kit.eval, &pb));
+            let got_b = step!(cx, format!("{}::decrypt_outputs", hn), h.dec_out_f(ce, &kit.dec, &yt));
+            let (_, bad) = first_mismatch_f(&got_b, &addv_f64(expect, bias), tol);
+            if let Some(d) = bad { cx.viol(&format!("{}::encode_outputs+add_plain", hn), "value", d); return; }
+            // re-encoding at the first level: rounding 1/2, fresh noise, decode conversions
+            let tol_re = 2.0 * (bf + 1.0 + pow2f(13)) / delta + (vmax + 1.0) * pow2f(-45);
+            let pe = step!(cx, format!("{}::encode_outputs", hn), h.enc_out_f(ce, expect, None, delta));
+            let cc = step!(cx, "Plain2d::encrypt", encrypt2d(kit, &pe, sym, false));
+            let cc = step!(cx, format!("Cipher2d::{}", tr.name()), do_transport(&kit.ctx, &cc, tr, &terms));
+            let back = step!(cx, format!("{}::decrypt_outputs", hn), h.dec_out_f(ce, &kit.dec, &cc));
+            let (_, bad) = first_mismatch_f(&back, expect, tol_re);
+            if let Some(d) = bad { cx.viol(&format!("{}::encode_outputs->decrypt_outputs", hn), "value", d); return; }
+        }
+    }
+}
+
+// ------------------------------------------------------------------ group: Cheetah MatmulHelper
+const OBJS: [MatmulHelperObjective; 3] = [MatmulHelperObjective::CipherPlain, MatmulHelperObjective::PlainCipher, MatmulHelperObjective::CpAddPc];
+fn obj_name(o: MatmulHelperObjective) -> &'static str { match o { MatmulHelperObjective::CipherPlain => "CipherPlain", MatmulHelperObjective::PlainCipher => "PlainCipher", MatmulHelperObjective::CpAddPc => "CpAddPc" } }
+
+/// every shape of [1,boxmax]^3 plus boundary shapes with dimensions from {N-1, N, N+1, 2N+1, 3N}
+fn cheetah_shapes(n: usize, boxmax: usize) -> Vec<(usize, usize, usize)> {
+    let mut v = vec![];
+    for m in 1..=boxmax { for r in 1..=boxmax { for k in 1..=boxmax { v.push((m, r, k)); } } }
+    let big = [n - 1, n, n + 1, 2 * n + 1, 3 * n];
+    for &d in &big {
+        v.push((d, 2, 3)); v.push((2, d, 3)); v.push((2, 3, d));
+        v.push((d, 1, 1)); v.push((1, d, 1)); v.push((1, 1, d));
+        v.push((d, d, 1)); v.push((1, d, d)); v.push((d, 1, d));
+    }
+    v.push((n + 1, n + 1, n + 1)); v.push((n - 1, n, n + 1)); v.push((2 * n + 1, n - 1, n + 1)); v.push((n + 1, 2 * n + 1, n - 1)); v.push((n, n, n));
+    let mut seen = std::collections::BTreeSet::new();
+    v.retain(|s| seen.insert(*s));
+    v
+}
+
+fn cheetah_case(cfg: &Cfg, grp: &'static str, case: u64, rng: &mut Rng, rep: &mut Report, n: usize, ckks: bool, shape: (usize, usize, usize), large: bool) {
+    let (m, r, k) = shape;
+    let t = if ckks { 0 } else if large { 1u64 << *rng.pick(&[13u32, 20]) } else { 1u64 << *rng.pick(&[1u32, 4, 13, 20, 32]) };
+    let scheme = if ckks { SchemeType::CKKS } else { SchemeType::BFV };
+    let Some(spec) = make_spec(rng, scheme, n, t, "cheetah", 2) else { rep.harness_errors.push("C20 cheetah: no primes".into()); return; };
+    let kit = match Kit::new(&spec) { Ok(k) => k, Err(e) => { rep.harness_errors.push(format!("C20 cheetah kit: {}", e)); return; } };
+    let benc = if ckks { None } else { match lib(|| BatchEncoder::new(kit.ctx.clone())) { Ok(b) => Some(b), Err(p) => { rep.harness_errors.push(format!("C20 BatchEncoder::new: {}", p.0)); return; } } };
+    let auto = match lib(|| kit.keygen.create_automorphism_keys(false)) { Ok(a) => a, Err(p) => { rep.harness_errors.push(format!("C20 create_automorphism_keys: {}", p.0)); return; } };
+    let sname = if ckks { "CKKS" } else { "BFV" };
+    for obj in OBJS { for pack in [false, true] {
+        let dirs: &[Dir] = if matches!(obj, MatmulHelperObjective::CpAddPc) { &[Dir::Fwd, Dir::Rev, Dir::Sum] } else { &[Dir::Fwd, Dir::Rev] };
+        let helper = match lib(|| MatmulHelper::new(m, r, k, n, obj, pack)) {
+            Ok(h) => h,
+            Err(_) => { rep.count("constructor_refused", &format!("MatmulHelper|N={}|pack={}", n, pack as u8)); continue; }
+        };
+        // observed blocking (number of blocks along each dimension), from the encoders' output structure
+        let split = {
+            let probe = lib(|| if ckks {
+                let e = kit.ckks.as_ref().unwrap();
+                (helper.encode_inputs_ckks(e, &vec![0.0; m * r], None, 2.0), helper.encode_weights_ckks(e, &vec![0.0; r * k], None, 2.0))
+            } else {
+                let e = benc.as_ref().unwrap();
+                (helper.encode_inputs_bfv(e, &vec![0; m * r]), helper.encode_weights_bfv(e, &vec![0; r * k]))
+            });
+            match probe {
+                Ok((pi, pw)) => {
+                    let (cm, cr, cn) = (pi.data.len(), pw.data.len(), pw.data.get(0).map(|x| x.data.len()).unwrap_or(0));
+                    let mut s = String::new();
+                    if cm > 1 { s.push('m'); } if cr > 1 { s.push('r'); } if cn > 1 { s.push('n'); }
+                    if s.is_empty() { s.push('-'); }
+                    // block sizes as the helper reports them (Debug); a partial last block exists when a split dimension is not a multiple
+                    let dbg = format!("{:?}", helper);
+                    let field = |name: &str| -> Option<usize> { let i = dbg.find(name)? + name.len(); dbg[i..].trim_start_matches(|c: char| c == ':' || c == ' ').split(|c: char| !c.is_ascii_digit()).next()?.parse().ok() };
+                    let partial = match (field("batch_block"), field("input_block"), field("output_block")) {
+                        (Some(bb), Some(ib), Some(ob)) if bb > 0 && ib > 0 && ob > 0 => (cm > 1 && m % bb != 0) || (cr > 1 && r % ib != 0) || (cn > 1 && k % ob != 0),
+                        _ => false,
+                    };
+                    format!("{}{}", s, if partial { "+partial_last" } else { "" })
+                }
+                Err(_) => "?".to_string(),
+            }
+        };
+        for &dir in dirs {
+            let vclass = *rng.pick(&U_CLASSES);
+            let info = json!({"helper": "MatmulHelper", "N": n, "scheme": sname, "t": t, "shape_m_r_n": [m, r, k], "objective": obj_name(obj), "pack_lwe": pack,
+                "direction": format!("{:?}", dir), "values": vclass, "blocks_split": split, "qs": spec.qs});
+            let mut cx = Cx { cfg, rep: &mut *rep, grp, case, class: format!("pack_lwe={}", pack as u8), info, failed: false };
+            let shape_class = if m.max(r).max(k) >= n - 1 { "boundary" } else { "box" };
+            cx.rep.count("cheetah_config", &format!("N={}|{}|{}|pack={}|{:?}", n, sname, obj_name(obj), pack as u8, dir));
+            cx.rep.count("cheetah_split", &format!("N={}|pack={}|split={}|{}", n, pack as u8, split, shape_class));
+            let ops = if ckks {
+                let mut x = gen_f(rng, m * r, vclass); let mut w = gen_f(rng, r * k, vclass);
+                shape_values_f(vclass, &mut x, &mut w, m, r, k);
+                let x2 = gen_f(rng, m * r, "random"); let w2 = gen_f(rng, r * k, "random");
+                let bias = gen_f(rng, m * k, "random");
+                let mut expect = matmul_f64(&x, &w, m, r, k);
+                if dir == Dir::Sum { expect = addv_f64(&expect, &matmul_f64(&x2, &w2, m, r, k)); }
+                Ops::F { x, w, x2, w2, bias, expect }
+            } else {
+                let mut x = gen_u(rng, m * r, t, vclass); let mut w = gen_u(rng, r * k, t, vclass);
+                shape_values_u(vclass, &mut x, &mut w, m, r, k);
+                let x2 = gen_u(rng, m * r, t, "random"); let w2 = gen_u(rng, r * k, t, "random");
+                let bias = gen_u(rng, m * k, t, if vclass == "zero_w" { "sparse_small" } else { "random" });
+                let mut expect = matmul_mod(&x, &w, m, r, k, t);
+                if dir == Dir::Sum { expect = addv_mod(&expect, &matmul_mod(&x2, &w2, m, r, k, t), t); }
+                Ops::U { t, x, w, x2, w2, bias, expect }
+            };
+            coeff_flow(&mut cx, rng, &kit, benc.as_ref(), &helper, &ops, r, dir, if pack { Some(&auto) } else { None }, large, None);
+            let failed = cx.failed; let info = cx.info.clone();
+            let trivial = vclass == "zero_w";
+            let cls = format!("cheetah|{}|{}|{}|{}|{:?}|{},{},{}", n, sname, obj_name(obj), pack as u8, dir, m, r, k);
+            rep.eval(if trivial { None } else { Some(&cls) });
+            if !failed && !large && ((case == 5 && !pack) || (case == 505 && pack)) && matches!(dir, Dir::Fwd) && matches!(obj, MatmulHelperObjective::CipherPlain) { rep.sample(info); }
+        }
+    } }
+}
+
+/// matrix-structured value classes (x is m x r row-major, w is r x n row-major)
+fn shape_values_u(class: &str, x: &mut [u64], w: &mut [u64], m: usize, r: usize, n: usize) {
+    match class {
+        "zero_w" => w.iter_mut().for_each(|v| *v = 0),
+        "w_last_out_zero" => for i in 0..r { w[i * n + n - 1] = 0; },
+        "x_last_zero" => for j in 0..r { x[(m - 1) * r + j] = 0; },
+        _ => {}
+    }
+}
+fn shape_values_f(class: &str, x: &mut [f64], w: &mut [f64], m: usize, r: usize, n: usize) {
+    match class {
+        "zero_w" => w.iter_mut().for_each(|v| *v = 0.0),
+        "w_last_out_zero" => for i in 0..r { w[i * n + n - 1] = 0.0; },
+        "x_last_zero" => for j in 0..r { x[(m - 1) * r + j] = 0.0; },
+        _ => {}
+    }
+}
+
+// ------------------------------------------------------------------ group: Conv2dHelper
+fn conv_case(cfg: &Cfg, grp: &'static str, case: u64, rng: &mut Rng, rep: &mut Report, n: usize, s: ConvShape, ckks: bool, obj: MatmulHelperObjective, dir: Dir) {
+    let t = if ckks { 0 } else if n > 128 { 1u64 << *rng.pick(&[13u32, 20]) } else { 1u64 << *rng.pick(&[1u32, 4, 13, 20, 32]) };
+    let scheme = if ckks { SchemeType::CKKS } else { SchemeType::BFV };
+    let sname = if ckks { "CKKS" } else { "BFV" };
+    let Some(spec) = make_spec(rng, scheme, n, t, "conv2d", 2) else { rep.harness_errors.push("C20 conv: no primes".into()); return; };
+    let kit = match Kit::new(&spec) { Ok(k) => k, Err(e) => { rep.harness_errors.push(format!("C20 conv kit: {}", e)); return; } };
+    let benc = if ckks { None } else { match lib(|| BatchEncoder::new(kit.ctx.clone())) { Ok(b) => Some(b), Err(p) => { rep.harness_errors.push(format!("C20 BatchEncoder::new: {}", p.0)); return; } } };
+    let helper = match lib(|| Conv2dHelper::new(s.b, s.ci, s.co, s.h, s.w, s.kh, s.kw, n, obj)) {
+        Ok(h) => h,
+        Err(_) => { rep.count("constructor_refused", &format!("Conv2dHelper|N={}", n)); return; }
+    };
+    // observed blocking: indicator probes through the public encoder (rows / columns of image 0, channel 0 that land in the first polynomial)
+    let count_first = |probe_u: Vec<u64>| -> Option<(usize, usize, usize)> {
+        lib(|| {
+            if ckks {
+                let e = kit.ckks.as_ref().unwrap();
+                let pf: Vec<f64> = probe_u.iter().map(|&v| v as f64).collect();
+                let p = helper.encode_inputs_ckks(e, &pf, None, 1024.0);
+                let c = e.decode_polynomial_new(&p.data[0].data[0]).iter().filter(|v| v.abs() > 0.5).count();
+                (c, p.data.len(), p.data[0].data.len())
+            } else {
+                let p = helper.encode_inputs_bfv(benc.as_ref().unwrap(), &probe_u);
+                let c = p.data[0].data[0].data().iter().filter(|&&v| v != 0).count();
+                (c, p.data.len(), p.data[0].data.len())
+            }
+        }).ok()
+    };
+    let mut ph = vec![0u64; s.lx()]; for r in 0..s.h { ph[r * s.w] = 1; }
+    let mut pw_ = vec![0u64; s.lx()]; for c in 0..s.w { pw_[c] = 1; }
+    let (mut split, mut hsplit) = (String::from("?"), false);
+    if let (Some((hb, total, cci)), Some((wb, _, _))) = (count_first(ph), count_first(pw_)) {
+        if hb >= s.kh && wb >= s.kw {
+            let sh = ceil_div(s.oh(), hb - s.kh + 1); let sw = ceil_div(s.ow(), wb - s.kw + 1);
+            let cb = if sh * sw > 0 && total % (sh * sw) == 0 { total / (sh * sw) } else { 0 };
+            hsplit = sh > 1;
+            let mut v = vec![];
+            if cb > 1 { v.push("batch"); } if sh > 1 { v.push("height"); } if sw > 1 { v.push("width"); } if cci > 1 { v.push("cin"); }
+            let cco = lib(|| if ckks { helper.encode_weights_ckks(kit.ckks.as_ref().unwrap(), &vec![0.0; s.lw()], None, 2.0).data.len() } else { helper.encode_weights_bfv(benc.as_ref().unwrap(), &vec![0; s.lw()]).data.len() });
+            match cco { Ok(c) => if c > 1 { v.push("cout"); }, Err(_) => v.push("cout?") }
+            split = if v.is_empty() { "-".into() } else { v.join("+") };
+            if cb == 0 { split.push_str("+batch?"); }
+        }
+    }
+    let vclass = *rng.pick(&U_CLASSES);
+    let info = json!({"helper": "Conv2dHelper", "N": n, "scheme": sname, "t": t, "batch": s.b, "channels_in": s.ci, "channels_out": s.co, "image_h_w": [s.h, s.w], "kernel_h_w": [s.kh, s.kw],
+        "objective": obj_name(obj), "direction": format!("{:?}", dir), "values": vclass, "blocks_split": split, "qs": spec.qs});
+    rep.count("conv_config", &format!("N={}|{}|{}|{:?}", n, sname, obj_name(obj), dir));
+    rep.count("conv_split", &format!("N={}|split={}", n, split));
+    rep.count("conv_kernel", &format!("{}x{}", s.kh, s.kw));
+    let ops = if ckks {
+        let x = gen_f(rng, s.lx(), vclass); let mut w = gen_f(rng, s.lw(), vclass);
+        if vclass == "zero_w" { w.iter_mut().for_each(|v| *v = 0.0); }
+        if vclass == "w_last_out_zero" { let per = s.ci * s.kh * s.kw; for v in w[(s.co - 1) * per..].iter_mut() { *v = 0.0; } }
+        let bias = gen_f(rng, s.ly(), "random");
+        let expect = conv_f64(&x, &w, &s);
+        Ops::F { x, w, x2: vec![], w2: vec![], bias, expect }
+    } else {
+        let mut x = gen_u(rng, s.lx(), t, vclass); let mut w = gen_u(rng, s.lw(), t, vclass);
+        if vclass == "zero_w" { w.iter_mut().for_each(|v| *v = 0); }
+        if vclass == "w_last_out_zero" { let per = s.ci * s.kh * s.kw; for v in w[(s.co - 1) * per..].iter_mut() { *v = 0; } }
+        if vclass == "x_last_zero" { let per = s.ci * s.h * s.w; for v in x[(s.b - 1) * per..].iter_mut() { *v = 0; } }
+        let bias = gen_u(rng, s.ly(), t, if vclass == "zero_w" { "sparse_small" } else { "random" });
+        let expect = conv_mod(&x, &w, &s, t);
+        Ops::U { t, x, w, x2: vec![], w2: vec![], bias, expect }
+    };
+    let mut cx = Cx { cfg, rep: &mut *rep, grp, case, class: (if hsplit { "height_split" } else { "height_unsplit" }).to_string(), info, failed: false };
+    coeff_flow(&mut cx, rng, &kit, benc.as_ref(), &helper, &ops, s.ci, dir, None, n > 128, None);
+    let failed = cx.failed; let info = cx.info.clone();
+    if failed && hsplit { rep.min("conv_failing_min_image_area", (s.h * s.w) as f64); }
+    let trivial = vclass == "zero_w";
+    let cls = format!("conv|{}|{}|{}|{:?}|{:?}", n, sname, obj_name(obj), dir, s);
+    rep.eval(if trivial { None } else { Some(&cls) });
+    if !failed && ((grp == "conv" && case == 7) || (grp == "conv_large" && case == 25)) { rep.sample(info); }
+}
+
+// ------------------------------------------------------------------ group: BOLT slot-packing helpers
+enum Bolt { Cp(MatmulBoltCp), Cr(MatmulBoltCcCr), Dc(MatmulBoltCcDc) }
+const BOLT_KINDS: [&str; 3] = ["MatmulBoltCp", "MatmulBoltCcCr", "MatmulBoltCcDc"];
+impl Bolt {
+    fn new(kind: usize, m: usize, r: usize, n: usize, deg: usize) -> Bolt {
+        match kind { 0 => Bolt::Cp(MatmulBoltCp::new(m, r, n, deg)), 1 => Bolt::Cr(MatmulBoltCcCr::new(m, r, n, deg)), _ => Bolt::Dc(MatmulBoltCcDc::new(m, r, n, deg)) }
+    }
+    fn weights_encrypted(&self) -> bool { !matches!(self, Bolt::Cp(_)) }
+    fn enc_in(&self, e: &BatchEncoder, x: &[u64]) -> Plain2d { match self { Bolt::Cp(h) => h.encode_inputs(e, x), Bolt::Cr(h) => h.encode_inputs(e, x), Bolt::Dc(h) => h.encode_inputs(e, x) } }
+    fn enc_w(&self, e: &BatchEncoder, w: &[u64]) -> Plain2d { match self { Bolt::Cp(h) => h.encode_weights(e, w), Bolt::Cr(h) => h.encode_weights(e, w), Bolt::Dc(h) => h.encode_weights(e, w) } }
+    fn enc_out(&self, e: &BatchEncoder, y: &[u64]) -> Plain2d { match self { Bolt::Cp(h) => h.encode_outputs(e, y), Bolt::Cr(h) => h.encode_outputs(e, y), Bolt::Dc(h) => h.encode_outputs(e, y) } }
+    fn dec_out(&self, e: &BatchEncoder, y: &Plain2d) -> Vec<u64> { match self { Bolt::Cp(h) => h.decode_outputs(e, y), Bolt::Cr(h) => h.decode_outputs(e, y), Bolt::Dc(h) => h.decode_outputs(e, y) } }
+    fn mul(&self, e: &BatchEncoder, ev: &Evaluator, gk: &GaloisKeys, rk: &RelinKeys, xc: &Cipher2d, pw: &Plain2d, wc: Option<&Cipher2d>) -> Cipher2d {
+        match self {
+            Bolt::Cp(h) => h.multiply(ev, gk, xc, pw),
+            Bolt::Cr(h) => h.multiply(e, ev, gk, rk, xc, wc.unwrap()),
+            Bolt::Dc(h) => h.multiply(e, ev, gk, rk, xc, wc.unwrap()),
+        }
+    }
+}
+fn ceil_two_power(n: usize) -> usize { let mut x = 1; while x < n { x <<= 1; } x }
+fn count2d_c(c: &Cipher2d) -> usize { c.data.iter().map(|r| r.data.len()).sum() }
+fn count2d_p(c: &Plain2d) -> usize { c.data.iter().map(|r| r.data.len()).sum() }
+
+fn bolt_case(cfg: &Cfg, grp: &'static str, case: u64, rng: &mut Rng, rep: &mut Report, kind: usize, n: usize, shape: (usize, usize, usize), tbits: u32, data_primes: usize) {
+    let (m, r, k) = shape;
+    let hn = BOLT_KINDS[kind];
+    let Some(t) = batching_prime(n, tbits, rng.usize_below(2)).or_else(|| batching_prime(n, 20, 0)) else { rep.harness_errors.push("C20 bolt: no batching prime".into()); return; };
+    let Some(spec) = make_spec(rng, SchemeType::BFV, n, t, "bolt", data_primes) else { rep.harness_errors.push("C20 bolt: no primes".into()); return; };
+    let kit = match Kit::new(&spec) { Ok(k) => k, Err(e) => { rep.harness_errors.push(format!("C20 bolt kit: {}", e)); return; } };
+    let Some(be) = kit.batch.as_ref() else { rep.harness_errors.push(format!("C20 bolt: batching not enabled for t={} N={}", t, n)); return; };
+    let keys = lib(|| (kit.keygen.create_galois_keys(false), kit.keygen.create_relin_keys(false)));
+    let (gk, rk) = match keys { Ok(k) => k, Err(p) => { rep.harness_errors.push(format!("C20 bolt keys: {}", p.0)); return; } };
+    let helper = match lib(|| Bolt::new(kind, m, r, k, n)) {
+        Ok(h) => h,
+        Err(_) => { rep.count("constructor_refused", &format!("{}|N={}", hn, n)); return; }
+    };
+    // documented blocking: g = ceil_two_power(M), s = N / g with M the per-ciphertext row count
+    let mm = match kind { 0 => m, 1 => m.max(k), _ => m.max(r) }.min(n / 2);
+    let s = n / ceil_two_power(mm);
+    let partial = match kind { 0 => r % s != 0 || k % s != 0, 1 => r % s != 0 || mm % s != 0, _ => k % s != 0 || mm % s != 0 };
+    let over_half = match kind { 0 => m > n / 2, 1 => m.max(k) > n / 2, _ => m.max(r) > n / 2 };
+    let vclass = *rng.pick(&U_CLASSES);
+    let mut x = gen_u(rng, m * r, t, vclass); let mut w = gen_u(rng, r * k, t, vclass);
+    shape_values_u(vclass, &mut x, &mut w, m, r, k);
+    let bias = gen_u(rng, m * k, t, "random");
+    let expect = matmul_mod(&x, &w, m, r, k, t);
+    let info = json!({"helper": hn, "N": n, "scheme": "BFV", "t": t, "shape_m_r_n": [m, r, k], "values": vclass, "slots_per_column_block_s": s, "partial_last_block": partial, "rows_over_half_degree": over_half, "qs": spec.qs});
+    let mut cx = Cx { cfg, rep: &mut *rep, grp, case, class: String::new(), info, failed: false };
+    bolt_flow(&mut cx, rng, &kit, be, &helper, hn, &gk, &rk, &x, &w, &bias, &expect, t, n, partial, over_half);
+    let failed = cx.failed; let info = cx.info.clone();
+    let trivial = vclass == "zero_w";
+    let cls = format!("bolt|{}|{}|{},{},{}", hn, n, m, r, k);
+    rep.eval(if trivial { None } else { Some(&cls) });
+    if !failed && grp == "bolt" && case == 3 { rep.sample(info); }
+}
+
+fn bolt_flow(cx: &mut Cx, rng: &mut Rng, kit: &Kit, be: &BatchEncoder, h: &Bolt, hn: &str, gk: &GaloisKeys, rk: &RelinKeys,
+    x: &[u64], w: &[u64], bias: &[u64], expect: &[u64], t: u64, n: usize, partial: bool, over_half: bool) {
+    let sym = rng.bool(); let wire = rng.bool(); let out_wire = rng.chance(2, 3);
+    cx.info["symmetric_inputs"] = json!(sym); cx.info["inputs_through_serialization"] = json!(wire); cx.info["outputs_through_serialization"] = json!(out_wire);
+    cx.class = "encode".into();
+    let px = step!(cx, format!("{}::encode_inputs", hn), h.enc_in(be, x));
+    let pw = step!(cx, format!("{}::encode_weights", hn), h.enc_w(be, w));
+    let multi = count2d_p(&px) > 1 || (h.weights_encrypted() && count2d_p(&pw) > 1);
+    let xc = step!(cx, "Plain2d::encrypt", encrypt2d(kit, &px, sym, wire));
+    let wc = if h.weights_encrypted() { Some(step!(cx, "Plain2d::encrypt", encrypt2d(kit, &pw, !sym, wire))) } else { None };
+    cx.class = format!("ciphertexts={}", if multi { "several" } else { "one" });
+    let y = step!(cx, format!("{}::multiply", hn), h.mul(be, &kit.eval, gk, rk, &xc, &pw, wc.as_ref()));
+    let outs = count2d_c(&y);
+    let blocks = format!("in={}{}|out={}|partial_last={}|rows>N/2={}", if count2d_p(&px) > 1 { "several" } else { "one" }, if h.weights_encrypted() { if count2d_p(&pw) > 1 { ",w=several" } else { ",w=one" } } else { "" },
+        if outs > 1 { "several" } else { "one" }, partial as u8, over_half as u8);
+    cx.rep.count("bolt_blocks", &format!("{}|N={}|{}", hn, n, blocks));
+    cx.info["blocks"] = json!(blocks);
+    if let Some(c) = y.data.get(0).and_then(|r| r.data.get(0)) { if let Ok(b) = lib(|| kit.dec.invariant_noise_budget(c)) { cx.rep.min(&format!("noise_budget_bits_after_product.{}", hn), b as f64); } }
+    let mut y = if out_wire { step!(cx, "Cipher2d::serialize", roundtrip_full(&kit.ctx, &y)) } else { y };
+    let pd = step!(cx, "Cipher2d::decrypt", y.decrypt(&kit.dec));
+    let got = step!(cx, format!("{}::decode_outputs", hn), h.dec_out(be, &pd));
+    if let Some(d) = first_mismatch_u(&got, expect) { cx.viol(&format!("{}::multiply", hn), "value", d); return; }
+    cx.info["observed_outputs_head"] = json!(got.iter().take(6).collect::<Vec<_>>());
+    // bias
+    let pb = step!(cx, format!("{}::encode_outputs", hn), h.enc_out(be, bias));
+    step!(cx, "Cipher2d::add_plain_inplace", y.add_plain_inplace(&kit.eval, &pb));
+    let pd = step!(cx, "Cipher2d::decrypt", y.decrypt(&kit.dec));
+    let got_b = step!(cx, format!("{}::decode_outputs", hn), h.dec_out(be, &pd));
+    if let Some(d) = first_mismatch_u(&got_b, &addv_mod(expect, bias, t)) { cx.viol(&format!("{}::encode_outputs+add_plain", hn), "value", d); return; }
+    // re-encoding: plain round trip and through encryption
+    let pe = step!(cx, format!("{}::encode_outputs", hn), h.enc_out(be, expect));
+    let back = step!(cx, format!("{}::decode_outputs", hn), h.dec_out(be, &pe));
+    if let Some(d) = first_mismatch_u(&back, expect) { cx.viol(&format!("{}::encode_outputs->decode_outputs", hn), "value", d); return; }
+    let ce = step!(cx, "Plain2d::encrypt", encrypt2d(kit, &pe, sym, out_wire));
+    let pd = step!(cx, "Cipher2d::decrypt", ce.decrypt(&kit.dec));
+    let back = step!(cx, format!("{}::decode_outputs", hn), h.dec_out(be, &pd));
+    if let Some(d) = first_mismatch_u(&back, expect) { cx.viol(&format!("{}::encode_outputs->encrypt->decode_outputs", hn), "value", d); return; }
+}
+
+/// partial-last-block shapes at larger degrees (thorough): (kind, N, (m, r, n))
+fn bolt_large_shapes() -> Vec<(usize, usize, (usize, usize, usize))> {
+    let mut v = vec![];
+    for &n in &[64usize, 256, 1024, 4096] {
+        // Cp: s = 4 (m just below N/4), s = 8, and m beyond N/2 (two row groups)
+        v.push((0, n, (n / 4 - 1, 5, 7))); v.push((0, n, (n / 8, 9, 17))); v.push((0, n, (n / 2 + 1, 3, 5)));
+        if n <= 1024 { v.push((0, n, (3, n / 4 + 1, n / 4 - 1))); }
+        // CcCr: M = max(m, n) small, inner dimension one past a full ciphertext
+        let s3 = n / 4;
+        if n <= 1024 { v.push((1, n, (3, s3 + 1, 2))); v.push((1, n, (2, s3 - 1, 3))); v.push((2, n, (3, 2, s3 + 1))); v.push((2, n, (2, 3, s3 - 1))); }
+        else { v.push((1, n, (2, n / 2 + 1, 2))); v.push((2, n, (2, 2, n / 2 + 1))); }
+    }
+    v
+}
+
+// ------------------------------------------------------------------ group: rns_plain wrapper
+fn big_mod_sub(a: &BigU, b: &BigU, t: &BigU) -> BigU { a.add(t).sub(&b.rem(t)).rem(t) }
+fn negacyclic_big(a: &[BigU], b: &[BigU], t: &BigU) -> Vec<BigU> {
+    let n = a.len();
+    let mut pos = vec![BigU::zero(); n]; let mut neg = vec![BigU::zero(); n];
+    for i in 0..n { if a[i].is_zero() { continue; } for j in 0..n {
+        if b[j].is_zero() { continue; }
+        let p = a[i].mul(&b[j]);
+        if i + j < n { pos[i + j] = pos[i + j].add(&p); } else { neg[i + j - n] = neg[i + j - n].add(&p); }
+    } }
+    (0..n).map(|k| big_mod_sub(&pos[k].rem(t), &neg[k], t)).collect()
+}
+fn rns_values(rng: &mut Rng, count: usize, k: usize, big_t: &BigU) -> (Vec<u64>, Vec<BigU>, &'static str) {
+    let class = *rng.pick(&["random", "random", "t_minus_1", "small", "above_T"]);
+    let mut limbs = vec![0u64; count * k]; let mut vals = vec![];
+    for i in 0..count {
+        let raw: BigU = match class {
+            "t_minus_1" => big_t.sub(&BigU::one()),
+            "small" => BigU::from_u64(rng.below(3)),
+            "above_T" => BigU::from_limbs(&(0..k).map(|_| rng.u64()).collect::<Vec<_>>()),
+            _ => BigU::from_limbs(&(0..k).map(|_| rng.u64()).collect::<Vec<_>>()).rem(big_t),
+        };
+        limbs[i * k..(i + 1) * k].copy_from_slice(&raw.to_limbs(k));
+        vals.push(raw.rem(big_t));
+    }
+    (limbs, vals, class)
+}
+fn empty_rnsp(k: usize) -> RnspCiphertext { RnspCiphertext::from_raw_parts(vec![Ciphertext::new(); k]) }
+
+fn rns_case(cfg: &Cfg, case: u64, rng: &mut Rng, rep: &mut Report) {
+    let grp = "rns_plain";
+    let n = *rng.pick(&[8usize, 16, 32]);
+    let k = rng.range(2, 4) as usize;
+    let poly_mode = rng.bool();
+    let minb = (2 * n).trailing_zeros() + 2;
+    let mut ts: Vec<u64> = vec![];
+    for _ in 0..k {
+        let mut found = None;
+        for attempt in 0..8 { let bits = rng.range(minb as u64, 22) as u32; if let Some(p) = ntt_primes(n, bits, 1, attempt % 3).into_iter().next() { if !ts.contains(&p) { found = Some(p); break; } } }
+        match found { Some(p) => ts.push(p), None => { rep.harness_errors.push("C20 rns: no plain prime".into()); return; } }
+    }
+    let Some(qs) = coeff_primes(n, &[60, 60, 60], rng) else { rep.harness_errors.push("C20 rns: no primes".into()); return; };
+    let big_t = ts.iter().fold(BigU::one(), |a, &t| a.mul_u64(t));
+    let info = json!({"helper": "rns_plain", "N": n, "plain_moduli": ts, "qs": qs, "mode": if poly_mode { "polynomial" } else { "slots" }});
+    let mut cx = Cx { cfg, rep: &mut *rep, grp, case, class: format!("moduli={}|{}", k, if poly_mode { "polynomial" } else { "slots" }), info, failed: false };
+    rns_flow(&mut cx, rng, n, k, poly_mode, &ts, &qs, &big_t);
+    let failed = cx.failed; let info = cx.info.clone();
+    let cls = format!("rns|{}|{}|{}|{}", n, k, poly_mode, info["program"]);
+    rep.eval(Some(&cls));
+    if !failed && case == 11 { rep.sample(info); }
+}
+
+fn rns_flow(cx: &mut Cx, rng: &mut Rng, n: usize, k: usize, poly_mode: bool, ts: &[u64], qs: &[u64], big_t: &BigU) {
+    let setup = lib(|| {
+        let parms = RnspEncryptionParameters::new(SchemeType::BFV).set_poly_modulus_degree(n)
+            .set_plain_modulus(ts.iter().map(|&t| Modulus::new(t)).collect()).set_coeff_modulus(qs.iter().map(|&q| Modulus::new(q)).collect());
+        let ctx = RnspHeContext::new(parms, true, SecurityLevel::None);
+        if !ctx.parameters_set() { return None; }
+        let enc = RnspBatchEncoder::new(&ctx);
+        let kg = RnspKeyGenerator::new(&ctx);
+        let sk = kg.get_secret_key();
+        let pk = kg.create_public_key(false);
+        let rlk = kg.create_relin_keys(false);
+        let encryptor = RnspEncryptor::new(&ctx).set_public_key(pk).set_secret_key(sk.clone());
+        let decryptor = RnspDecryptor::new(&ctx, sk);
+        let ev = RnspEvaluator::new(&ctx);
+        Some((ctx, enc, rlk, encryptor, decryptor, ev))
+    });
+    let (ctx, enc, rlk, encryptor, decryptor, ev) = match setup {
+        Ok(Some(s)) => s,
+        Ok(None) => { cx.rep.harness_errors.push(format!("C20 rns: parameters rejected {}", cx.info)); return; }
+        Err(p) => { cx.viol("rns_plain::setup", "panic", format!("panicked: {}", p.0)); return; }
+    };
+    let count = if rng.chance(1, 4) { rng.range(1, n as u64) as usize } else { n };
+    let (la, mut va, ca) = rns_values(rng, count, k, big_t);
+    let (lb, mut vb, cb) = rns_values(rng, count, k, big_t);
+    let (lc, mut vc, cc) = rns_values(rng, count, k, big_t);
+    for v in [&mut va, &mut vb, &mut vc] { v.resize(n, BigU::zero()); }
+    cx.info["value_classes"] = json!([ca, cb, cc]); cx.info["values_given"] = json!(count);
+    let encode = |l: &[u64]| -> RnspPlaintext { if poly_mode { enc.encode_polynomial_new(l) } else { enc.encode_new(l) } };
+    let pa = step!(cx, "RnspBatchEncoder::encode", encode(&la));
+    let pb = step!(cx, "RnspBatchEncoder::encode", encode(&lb));
+    let pc = step!(cx, "RnspBatchEncoder::encode", encode(&lc));
+    let sym = rng.bool();
+    let encrypt = |p: &RnspPlaintext| -> RnspCiphertext { if sym { encryptor.encrypt_symmetric_new(p).expand_seed(&ctx) } else { encryptor.encrypt_new(p) } };
+    let mut ra = step!(cx, "RnspEncryptor::encrypt", encrypt(&pa));
+    let rb = step!(cx, "RnspEncryptor::encrypt", encrypt(&pb));
+    // program: up to 3 steps on (ra, va); at most one ciphertext product and one plaintext product (noise precondition)
+    let mul_ref = |x: &[BigU], y: &[BigU]| -> Vec<BigU> { if poly_mode { negacyclic_big(x, y, big_t) } else { x.iter().zip(y).map(|(a, b)| a.mul(b).rem(big_t)).collect() } };
+    let steps = rng.range(1, 3);
+    let (mut used_ct_mul, mut used_pt_mul) = (false, false);
+    let mut program: Vec<String> = vec![];
+    for _ in 0..steps {
+        let mut op = *rng.pick(&["add", "sub", "multiply", "square", "multiply_plain", "add_plain", "sub_plain", "negate"]);
+        if (op == "multiply" || op == "square") && used_ct_mul { op = "add"; }
+        if op == "multiply_plain" && used_pt_mul { op = "sub_plain"; }
+        let form = rng.below(3);
+        program.push(format!("{}/{}", op, ["new", "inplace", "dest"][form as usize]));
+        cx.rep.count("rns_ops", &format!("{}|{}", op, if poly_mode { "polynomial" } else { "slots" }));
+        let opn = format!("RnspEvaluator::{}", op);
+        match op {
+            "add" => { ra = step!(cx, opn, match form { 0 => ev.add_new(&ra, &rb), 1 => { let mut d = ra.clone(); ev.add_inplace(&mut d, &rb); d } _ => { let mut d = empty_rnsp(k); ev.add(&ra, &rb, &mut d); d } });
+                va = va.iter().zip(&vb).map(|(a, b)| a.add(b).rem(big_t)).collect(); }
+            "sub" => { ra = step!(cx, opn, match form { 0 => ev.sub_new(&ra, &rb), 1 => { let mut d = ra.clone(); ev.sub_inplace(&mut d, &rb); d } _ => { let mut d = empty_rnsp(k); ev.sub(&ra, &rb, &mut d); d } });
+                va = va.iter().zip(&vb).map(|(a, b)| big_mod_sub(a, b, big_t)).collect(); }
+            "multiply" => { used_ct_mul = true;
+                ra = step!(cx, opn, { let mut d = match form { 0 => ev.multiply_new(&ra, &rb), 1 => { let mut d = ra.clone(); ev.multiply_inplace(&mut d, &rb); d } _ => { let mut d = empty_rnsp(k); ev.multiply(&ra, &rb, &mut d); d } }; ev.relinearize_inplace(&mut d, &rlk); d });
+                va = mul_ref(&va, &vb); }
+            "square" => { used_ct_mul = true;
+                ra = step!(cx, opn, { let d = match form { 0 => ev.square_new(&ra), 1 => { let mut d = ra.clone(); ev.square_inplace(&mut d); d } _ => { let mut d = empty_rnsp(k); ev.square(&ra, &mut d); d } }; ev.relinearize_new(&d, &rlk) });
+                va = mul_ref(&va, &va); }
+            "multiply_plain" => { used_pt_mul = true;
+                ra = step!(cx, opn, match form { 0 => ev.multiply_plain_new(&ra, &pc), 1 => { let mut d = ra.clone(); ev.multiply_plain_inplace(&mut d, &pc); d } _ => { let mut d = empty_rnsp(k); ev.multiply_plain(&ra, &pc, &mut d); d } });
+                va = mul_ref(&va, &vc); }
+            "add_plain" => { ra = step!(cx, opn, match form { 0 => ev.add_plain_new(&ra, &pc), 1 => { let mut d = ra.clone(); ev.add_plain_inplace(&mut d, &pc); d } _ => { let mut d = empty_rnsp(k); ev.add_plain(&ra, &pc, &mut d); d } });
+                va = va.iter().zip(&vc).map(|(a, b)| a.add(b).rem(big_t)).collect(); }
+            "sub_plain" => { ra = step!(cx, opn, match form { 0 => ev.sub_plain_new(&ra, &pc), 1 => { let mut d = ra.clone(); ev.sub_plain_inplace(&mut d, &pc); d } _ => { let mut d = empty_rnsp(k); ev.sub_plain(&ra, &pc, &mut d); d } });
+                va = va.iter().zip(&vc).map(|(a, b)| big_mod_sub(a, b, big_t)).collect(); }
+            _ => { ra = step!(cx, opn, if form == 0 { ev.negate_new(&ra) } else { let mut d = ra.clone(); ev.negate_inplace(&mut d); d });
+                va = va.iter().map(|a| big_mod_sub(&BigU::zero(), a, big_t)).collect(); }
+        }
+    }
+    cx.info["program"] = json!(program);
+    let pd = step!(cx, "RnspDecryptor::decrypt", decryptor.decrypt_new(&ra));
+    let got = step!(cx, "RnspBatchEncoder::decode", if poly_mode { enc.decode_polynomial_new(&pd) } else { enc.decode_new(&pd) });
+    let opn = "rns_plain::program".to_string();
+    cx.class = format!("{}|{}", cx.class, if used_ct_mul { "ciphertext_product" } else if used_pt_mul { "plaintext_product" } else { "linear" });
+    if got.len() != n * k { cx.viol("RnspBatchEncoder::decode", "value", format!("decoded length {} expected {}", got.len(), n * k)); return; }
+    for i in 0..n {
+        let want = va[i].to_limbs(k);
+        if got[i * k..(i + 1) * k] != want[..] {
+            cx.viol(&opn, "value", format!("value {}: got limbs {:?}, expected {:?} (= {} mod prod t_i)", i, &got[i * k..(i + 1) * k], want, va[i].to_dec()));
+            return;
+        }
+    }
+    cx.info["observed_first_value_limbs"] = json!(got[..k].to_vec());
+}
+
+// ------------------------------------------------------------------ group: deterministic minimal inputs for the two trimmed-plaintext paths
+/// N = 8, t = 16, outputs whose trailing coefficients are zero, no transport: BFV decryption returns a
+/// plaintext shorter than N and decrypt_outputs_bfv must still return the outputs.
+fn minimal_case(cfg: &Cfg, case: u64, rng: &mut Rng, rep: &mut Report) {
+    let (n, t) = (8usize, 16u64);
+    let Some(spec) = make_spec(rng, SchemeType::BFV, n, t, "minimal", 2) else { rep.harness_errors.push("C20 minimal: no primes".into()); return; };
+    let kit = match Kit::new(&spec) { Ok(k) => k, Err(e) => { rep.harness_errors.push(format!("C20 minimal kit: {}", e)); return; } };
+    let benc = match lib(|| BatchEncoder::new(kit.ctx.clone())) { Ok(b) => b, Err(p) => { rep.harness_errors.push(format!("C20 BatchEncoder::new: {}", p.0)); return; } };
+    let obj = MatmulHelperObjective::CipherPlain;
+    if case == 0 {
+        let Ok(h) = lib(|| MatmulHelper::new(1, 1, 2, n, obj, false)) else { rep.count("constructor_refused", "MatmulHelper|minimal"); return; };
+        let ops = Ops::U { t, x: vec![1], w: vec![1, 0], x2: vec![], w2: vec![], bias: vec![3, 5], expect: vec![1, 0] };
+        let info = json!({"helper": "MatmulHelper", "N": n, "scheme": "BFV", "t": t, "shape_m_r_n": [1, 1, 2], "x": [1], "w": [1, 0], "pack_lwe": false, "qs": spec.qs});
+        let mut cx = Cx { cfg, rep: &mut *rep, grp: "minimal", case, class: "pack_lwe=0".into(), info, failed: false };
+        coeff_flow(&mut cx, rng, &kit, Some(&benc), &h, &ops, 1, Dir::Fwd, None, false, Some(Transport::Direct));
+        rep.eval(Some("minimal|MatmulHelper|1,1,2"));
+    } else {
+        let s = ConvShape { b: 1, ci: 1, co: 2, h: 2, w: 2, kh: 1, kw: 1 };
+        let Ok(h) = lib(|| Conv2dHelper::new(s.b, s.ci, s.co, s.h, s.w, s.kh, s.kw, n, obj)) else { rep.count("constructor_refused", "Conv2dHelper|minimal"); return; };
+        let (x, w) = (vec![1u64, 2, 3, 4], vec![1u64, 0]);
+        let expect = conv_mod(&x, &w, &s, t);
+        let info = json!({"helper": "Conv2dHelper", "N": n, "scheme": "BFV", "t": t, "batch": 1, "channels_in": 1, "channels_out": 2, "image_h_w": [2, 2], "kernel_h_w": [1, 1], "x": x, "w": w, "qs": spec.qs});
+        let ops = Ops::U { t, x, w, x2: vec![], w2: vec![], bias: vec![1, 2, 3, 4, 5, 6, 7, 8], expect };
+        let mut cx = Cx { cfg, rep: &mut *rep, grp: "minimal", case, class: "height_unsplit".into(), info, failed: false };
+        coeff_flow(&mut cx, rng, &kit, Some(&benc), &h, &ops, 1, Dir::Fwd, None, false, Some(Transport::Direct));
+        rep.eval(Some("minimal|Conv2dHelper|1,1,2,2x2,1x1"));
+    }
+}
+
+// ------------------------------------------------------------------ driver
+fn timed(rep: &mut Report, group: &str, f: impl FnOnce(&mut Report)) {
+    let t0 = std::time::Instant::now();
+    f(rep);
+    rep.max(&format!("group_wall_s.{}", group), t0.elapsed().as_secs_f64());
+}
+pub fn run(cfg: &Cfg, rep: &mut Report) -> PropMeta {
+    // ---- deterministic minimal inputs (trailing zero outputs, no transport)
+    run_cases(cfg, "minimal", 2, rep, |i, rng, rep| minimal_case(cfg, i, rng, rep));
+
+    // ---- Cheetah: every shape of the box x N x scheme (objectives, packing, directions inside the case)
+    let boxmax = cfg.pick(7usize, 10usize);
+    let mut cheetah: Vec<(usize, bool, (usize, usize, usize))> = vec![];
+    for &n in &[8usize, 16, 32] { for ckks in [false, true] { for s in cheetah_shapes(n, boxmax) { cheetah.push((n, ckks, s)); } } }
+    timed(rep, "cheetah", |rep| run_cases(cfg, "cheetah", cheetah.len() as u64, rep, |i, rng, rep| { let (n, ckks, s) = cheetah[i as usize]; cheetah_case(cfg, "cheetah", i, rng, rep, n, ckks, s, false) }));
+    if !cfg.quick() {
+        // degrees and shapes of the library's own examples/tests, plus one inner dimension just past N
+        let mut large: Vec<(usize, bool, (usize, usize, usize))> = vec![];
+        for &n in &[1024usize, 4096, 8192] { for ckks in [false, true] { for s in [(4, 5, 6), (17, 80, 100), (16, 512, 10), (2, n + 1, 3)] { large.push((n, ckks, s)); } } }
+        timed(rep, "cheetah_large", |rep| run_cases(cfg, "cheetah_large", large.len() as u64, rep, |i, rng, rep| { let (n, ckks, s) = large[i as usize]; cheetah_case(cfg, "cheetah_large", i, rng, rep, n, ckks, s, true) }));
+    }
+
+    // ---- BOLT: every shape of the box at N = 16, 32 for the three helpers, plus shapes beyond N/2 rows
+    let bbox = cfg.pick(6usize, 8usize);
+    let mut bolt: Vec<(usize, usize, (usize, usize, usize))> = vec![];
+    for kind in 0..3 { for &n in &[16usize, 32] {
+        for m in 1..=bbox { for r in 1..=bbox { for k in 1..=bbox { bolt.push((kind, n, (m, r, k))); } } }
+        for s in [(n / 2, 2, 3), (n / 2 + 1, 3, 2), (n + 1, 2, 2), (2, n / 2 + 1, 3), (3, 2, n / 2 + 1), (2, n + 1, 2), (2, 2, n + 1), (n / 2 + 1, n / 2 + 1, n / 2 + 1), (7, 9, 11)] { bolt.push((kind, n, s)); }
+    } }
+    timed(rep, "bolt", |rep| run_cases(cfg, "bolt", bolt.len() as u64, rep, |i, rng, rep| { let (kind, n, s) = bolt[i as usize]; let minb = (2 * n).trailing_zeros() + 2; bolt_case(cfg, "bolt", i, rng, rep, kind, n, s, [minb, 13, 17][i as usize % 3], 2) }));
+    if !cfg.quick() {
+        let large = bolt_large_shapes();
+        timed(rep, "bolt_large", |rep| run_cases(cfg, "bolt_large", large.len() as u64, rep, |i, rng, rep| { let (kind, n, s) = large[i as usize]; bolt_case(cfg, "bolt_large", i, rng, rep, kind, n, s, 17, 3) }));
+    }
+
+    // ---- conv2d: designated shapes (incl. the 20x8 image of DESIGN section 0) and the sampled box
+    let fixed: Vec<(usize, ConvShape)> = vec![
+        (8, ConvShape { b: 1, ci: 1, co: 1, h: 3, w: 3, kh: 1, kw: 3 }),   // smallest height split found: blocks 2x3, weight buffer 3*3 = 9 > N
+        (64, ConvShape { b: 1, ci: 1, co: 1, h: 20, w: 8, kh: 3, kw: 3 }),
+        (32, ConvShape { b: 1, ci: 1, co: 1, h: 11, w: 3, kh: 1, kw: 3 }),
+        (32, ConvShape { b: 1, ci: 1, co: 1, h: 9, w: 4, kh: 2, kw: 2 }),
+        (32, ConvShape { b: 1, ci: 1, co: 1, h: 4, w: 12, kh: 2, kw: 2 }),
+        (32, ConvShape { b: 3, ci: 3, co: 3, h: 4, w: 4, kh: 3, kw: 3 }),
+        (128, ConvShape { b: 2, ci: 3, co: 2, h: 12, w: 12, kh: 4, kw: 1 }),
+        (64, ConvShape { b: 3, ci: 1, co: 3, h: 6, w: 5, kh: 1, kw: 4 }),
+        (128, ConvShape { b: 1, ci: 2, co: 2, h: 8, w: 8, kh: 3, kw: 3 }),
+    ];
+    timed(rep, "conv_fixed", |rep| run_cases(cfg, "conv_fixed", (fixed.len() * 12) as u64, rep, |i, rng, rep| {
+        let (n, s) = fixed[i as usize / 12]; let v = i as usize % 12;
+        conv_case(cfg, "conv_fixed", i, rng, rep, n, s, v % 2 == 1, OBJS[(v / 2) % 3], if v / 6 == 0 { Dir::Fwd } else { Dir::Rev })
+    }));
+    timed(rep, "conv", |rep| run_cases(cfg, "conv", cfg.n(8000, 120000) as u64, rep, |i, rng, rep| {
+        let iu = i as usize;
+        let n = [32usize, 64, 128][iu % 3];
+        let kh = rng.range(1, 4) as usize; let kw = rng.range(1, 4) as usize;
+        let big = rng.chance(1, 3);
+        let h = if big { rng.range(10, 12) as usize } else { rng.range(kh as u64, 12) as usize };
+        let w = if big && rng.bool() { rng.range(10, 12) as usize } else { rng.range(kw as u64, 12) as usize };
+        let s = ConvShape { b: rng.range(1, 3) as usize, ci: rng.range(1, 3) as usize, co: rng.range(1, 3) as usize, h, w, kh, kw };
+        conv_case(cfg, "conv", i, rng, rep, n, s, (iu / 3) % 2 == 1, OBJS[(iu / 6) % 3], if (iu / 18) % 2 == 0 { Dir::Fwd } else { Dir::Rev })
+    }));
+
+    if !cfg.quick() {
+        // shapes of the library's own tests at N = 4096 and an image that must be split along both axes there
+        let large: Vec<(usize, ConvShape)> = vec![
+            (4096, ConvShape { b: 1, ci: 3, co: 5, h: 16, w: 17, kh: 3, kw: 5 }),
+            (4096, ConvShape { b: 4, ci: 3, co: 16, h: 32, w: 32, kh: 5, kw: 5 }),
+            (4096, ConvShape { b: 2, ci: 2, co: 2, h: 70, w: 70, kh: 3, kw: 3 }),
+            (1024, ConvShape { b: 1, ci: 1, co: 2, h: 40, w: 30, kh: 2, kw: 4 }),
+        ];
+        timed(rep, "conv_large", |rep| run_cases(cfg, "conv_large", (large.len() * 12) as u64, rep, |i, rng, rep| {
+            let (n, s) = large[i as usize / 12]; let v = i as usize % 12;
+            conv_case(cfg, "conv_large", i, rng, rep, n, s, v % 2 == 1, OBJS[(v / 2) % 3], if v / 6 == 0 { Dir::Fwd } else { Dir::Rev })
+        }));
+    }
+
+    // ---- rns_plain
+    timed(rep, "rns_plain", |rep| run_cases(cfg, "rns_plain", cfg.n(2000, 20000) as u64, rep, |i, rng, rep| rns_case(cfg, i, rng, rep)));
+
+    let rule_quick = "Cheetah MatmulHelper: every shape (m,r,n) in [1,7]^3 plus the boundary shapes with dimensions from {N-1,N,N+1,2N+1,3N} (one, two or three large dimensions), at N in {8,16,32} x {BFV t=2^k, CKKS} x 3 objectives x pack_lwe on/off x {matmul, matmul_reverse, and their sum for CpAddPc}: this finite configuration space is enumerated completely (operand value class, t, transport {serialize_terms, serialize, none} and encryption mode are sampled per configuration). BOLT Cp/CcCr/CcDc: every shape in [1,6]^3 plus 9 shapes beyond N/2 rows at N in {16,32}. Conv2dHelper: 9 designated shapes x 12 variants plus 8000 sampled (batch, cin, cout in [1,3], kernel 1..4 x 1..4, image up to 12x12, N in {32,64,128}, 3 objectives, both directions, BFV/CKKS). rns_plain: 2000 programs (2-4 plain moduli, slot and polynomial mode). distinct = distinct (helper, N, scheme, objective, packing, direction, shape) with a non-zero weight operand";
+    let rule_thorough = "Cheetah MatmulHelper: every shape (m,r,n) in [1,10]^3 plus the boundary shapes with dimensions from {N-1,N,N+1,2N+1,3N} (one, two or three large dimensions), at N in {8,16,32} x {BFV t=2^k, CKKS} x 3 objectives x pack_lwe on/off x {matmul, matmul_reverse, and their sum for CpAddPc}: this finite configuration space is enumerated completely (operand value class, t, transport {serialize_terms, serialize, none} and encryption mode are sampled per configuration); plus 4 example shapes at N in {1024,4096,8192}. BOLT Cp/CcCr/CcDc: every shape in [1,8]^3 plus 9 shapes beyond N/2 rows at N in {16,32}, plus partial-last-block shapes at N in {64,256,1024,4096}. Conv2dHelper: 9 designated shapes x 12 variants, 120000 sampled (batch, cin, cout in [1,3], kernel 1..4 x 1..4, image up to 12x12, N in {32,64,128}, 3 objectives, both directions, BFV/CKKS) and 4 large shapes at N in {1024,4096}. rns_plain: 20000 programs (2-4 plain moduli, slot and polynomial mode). distinct = distinct (helper, N, scheme, objective, packing, direction, shape) with a non-zero weight operand";
+    PropMeta {
+        id: P, level: "exploration",
+        rule: cfg.pick(rule_quick, rule_thorough),
+        assumptions: vec![
+            "parameters: two 60-bit data primes and one 60-bit special prime found by the harness (three data primes for the large-degree BOLT cases); 'accepted' = the helper constructor returned".into(),
+            "BFV coefficient packing (t = 2^k, k in {1,4,13,20,32}; {13,20} for N >= 1024): worst-case phase error adds*(N*(t/2)*(B+1) + N*t^2/2)*2 + 2^16*N^2 (packing key switches), B = 21(2N+1) for public-key and 21 for secret-key encryption of the encrypted operand, adds = number of accumulated plaintext products, is required to be 8x below q/(2t) with q >= 2^118; all generated cases satisfy it (otherwise counted out_of_precondition)".into(),
+            "BOLT (batching prime t <= 2^17, N <= 32: t*N bounded so that one ciphertext product (2tN^2 E + 2t^2N^4), one mask product (N t/2) and log(s) rotation sums stay below q/(2t) in the worst case); the smallest observed noise budget is recorded under extremes".into(),
+            "CKKS: operands bounded by 4 in absolute value, encoding scale 2^45, one rescale; tolerance = 2*(dirs*adds*N*5*(B+2)/2^45 + 2^16*N^2/2^90 + (N+2)/2/scale' + 1/scale' + 2^13/scale' + (|y|+1)*2^-45) with scale' = 2^90/q1 as reported by the ciphertext; a case whose tolerance would exceed 2^-10 is counted out_of_precondition; N >= 1024 cases use secret-key encryption only (B = 21)".into(),
+            "rns_plain: BFV, N <= 32, batching plain primes below 2^22, programs with at most one ciphertext product and one plaintext product".into(),
+            "operand values are sampled (classes: random, all maximal, sparse, zero weights, zero last output column/channel, zero last input row/image); the enumeration is over shapes and configurations, not values".into(),
+        ],
+        exhaustive: true,
+        floor: cfg.pick(30000, 180000),
+    }
 }
